@@ -4,6 +4,7 @@ package c06
 // optional parts, (c) container-level faults. rapid only draws plain data (Case); Build() turns it into bytes.
 
 import (
+	"strconv"
 	"strings"
 
 	"pgregory.net/rapid"
@@ -195,6 +196,12 @@ func (g *gctx) mainTree() *Node {
 		if name == "sectPr" && i < k-1 && rapid.Bool().Draw(t, "sect-last") {
 			name = "p"
 		}
+		if rapid.IntRange(0, 6).Draw(t, "edge-table") == 0 {
+			// explicit degenerate table shapes: no rows, only properties / grid, rows without cells
+			body.C = append(body.C, edgeTable(rapid.IntRange(0, len(edgeTableShapes)-1).Draw(t, "edge-shape")))
+			g.nodes += 4
+			continue
+		}
 		body.C = append(body.C, g.elem(name, 1, -1))
 	}
 	root := Node{N: "w:document", A: rootNS(nsW), C: []Node{body}}
@@ -203,6 +210,36 @@ func (g *gctx) mainTree() *Node {
 			Attr{N: "xmlns:ns0", V: nsW}, Attr{N: "xmlns:mc", V: "http://schemas.openxmlformats.org/markup-compatibility/2006"})
 	}
 	return &root
+}
+
+var edgeTableShapes = []string{"empty", "selfclosed", "tblPr-only", "grid-only", "tblPr+grid", "tr-without-tc", "trPr-only-row", "empty-first-row", "rows-then-nothing", "unknown-only"}
+
+// edgeTable returns a body-level table of a degenerate shape.
+func edgeTable(i int) Node {
+	pr := el("w:tblPr", nil, el("w:tblW", at("w:w", "0", "w:type", "auto")))
+	grid := el("w:tblGrid", nil, el("w:gridCol", at("w:w", "2000")), el("w:gridCol", at("w:w", "2000")))
+	cell := el("w:tc", nil, el("w:p", nil, el("w:r", nil, txt("w:t", nil, "x"))))
+	switch edgeTableShapes[i%len(edgeTableShapes)] {
+	case "empty":
+		return el("w:tbl", nil)
+	case "selfclosed":
+		return Node{N: "w:tbl", F: "selfclose", C: []Node{pr}}
+	case "tblPr-only":
+		return el("w:tbl", nil, pr)
+	case "grid-only":
+		return el("w:tbl", nil, grid)
+	case "tblPr+grid":
+		return el("w:tbl", nil, pr, grid)
+	case "tr-without-tc":
+		return el("w:tbl", nil, pr, grid, el("w:tr", nil))
+	case "trPr-only-row":
+		return el("w:tbl", nil, grid, el("w:tr", nil, el("w:trPr", nil, el("w:cantSplit", nil))), el("w:tr", nil, el("w:trPr", nil)))
+	case "empty-first-row":
+		return el("w:tbl", nil, pr, grid, el("w:tr", nil), el("w:tr", nil, cell, cell))
+	case "rows-then-nothing":
+		return el("w:tbl", nil, el("w:tr", nil, cell), el("w:tr", nil))
+	}
+	return el("w:tbl", nil, el("w:sdt", nil, el("w:sdtContent", nil, el("w:tr", nil, cell))))
 }
 
 func pickNode(t *rapid.T, root *Node, label string, pred func(*Node, int) bool) *Node {
@@ -486,6 +523,86 @@ func genOptionalPart(t *rapid.T, name string) *XMLPart {
 	return p
 }
 
+// RelIDStrategies are the id sets of the well-formed, adversarial relationship parts.
+var RelIDStrategies = []string{"dense1", "dense2", "sparse-count+2", "sparse-count+2", "sparse-range", "sparse-range", "reversed", "duplicated", "empty", "non-rid", "long", "zero-neg", "mixed"}
+
+var relTypes = []string{"image", "hyperlink", "header", "footer", "numbering", "settings", "footnotes", "endnotes", "theme", "fontTable", "customXml", "unknown-type"}
+
+// genRelsPart generates a WELL-FORMED relationship part whose ids / types / targets are adversarial: no styles relationship,
+// rId1 taken by another type, ids that collide with whatever a "next free id" search may try, duplicates, odd spellings.
+func genRelsPart(t *rapid.T, pkgLevel bool) *XMLPart {
+	n := rapid.IntRange(0, 7).Draw(t, "nrels")
+	strat := rapid.SampledFrom(RelIDStrategies).Draw(t, "relids")
+	ids := make([]string, n)
+	num := func(k int) string { return "rId" + strconv.Itoa(k) }
+	for i := range ids {
+		switch strat {
+		case "dense1":
+			ids[i] = num(i + 1)
+		case "dense2":
+			ids[i] = num(i + 2)
+		case "sparse-count+2":
+			// rId1 plus exactly the ids a search starting at count+2 (count+1, count+3) would try next
+			if i == 0 {
+				ids[i] = num(1)
+			} else {
+				ids[i] = num(n + 1 + i)
+			}
+		case "sparse-range":
+			if i == 0 {
+				ids[i] = num(1)
+			} else {
+				ids[i] = num(n + rapid.IntRange(0, 8).Draw(t, "gap"))
+			}
+		case "reversed":
+			ids[i] = num(n - i)
+		case "duplicated":
+			ids[i] = num(1 + i/2)
+		case "empty":
+			if i%2 == 0 {
+				ids[i] = ""
+			} else {
+				ids[i] = num(i)
+			}
+		case "non-rid":
+			ids[i] = rapid.SampledFrom([]string{"R1", "id7", "rIdX", "rid1", "RID1", "r Id1", "1", "rId", "rId1a", "图1", "rId１"}).Draw(t, "odd-id")
+		case "long":
+			ids[i] = "rId" + strings.Repeat("9", rapid.SampledFrom([]int{18, 19, 20, 40, 300}).Draw(t, "digits"))
+		case "zero-neg":
+			ids[i] = rapid.SampledFrom([]string{"rId0", "rId-1", "rId01", "rId+2", "rId1", "rId2", "rId 3", "rId1.0"}).Draw(t, "zn-id")
+		default:
+			ids[i] = rapid.SampledFrom([]string{"rId1", "rId2", "rId3", "rId4", "rId5", "rId6", "rId9", "rId10", "", "x"}).Draw(t, "mixed-id")
+		}
+	}
+	root := el("Relationships", at("xmlns", "http://schemas.openxmlformats.org/package/2006/relationships"))
+	styles := -1
+	if rapid.IntRange(0, 9).Draw(t, "with-styles") < 3 && n > 0 {
+		styles = rapid.IntRange(0, n-1).Draw(t, "styles-at")
+	}
+	for i, id := range ids {
+		typ := rapid.SampledFrom(relTypes).Draw(t, "reltype")
+		target := rapid.SampledFrom([]string{"media/image1.png", "media/missing.png", "header1.xml", "numbering.xml", "settings.xml", "", "/word/media/image1.png", "../docProps/core.xml", "styles.xml", "NULL"}).Draw(t, "target")
+		a := at("Id", id, "Type", nsR+"/"+typ, "Target", target)
+		if pkgLevel {
+			a = at("Id", id, "Type", rapid.SampledFrom([]string{nsR + "/officeDocument", nsR + "/extended-properties", nsR + "/custom-properties", "http://schemas.openxmlformats.org/package/2006/relationships/metadata/core-properties"}).Draw(t, "pkgtype"),
+				"Target", rapid.SampledFrom([]string{"word/document.xml", "/word/document.xml", "docProps/core.xml", "docProps/app.xml", "word/document2.xml", ""}).Draw(t, "pkgtarget"))
+		} else if i == styles {
+			a = at("Id", id, "Type", nsR+"/styles", "Target", "styles.xml")
+		} else if typ == "hyperlink" {
+			a = at("Id", id, "Type", nsR+"/hyperlink", "Target", "http://example.com/?a=1&b=2", "TargetMode", "External")
+		}
+		if rapid.IntRange(0, 11).Draw(t, "drop-attr") == 0 {
+			a = a[1:] // no Id attribute at all
+		}
+		root.C = append(root.C, el("Relationship", a))
+	}
+	ops := []string{"relids", "relids:" + strat}
+	if styles < 0 && !pkgLevel {
+		ops = append(ops, "relids:no-styles")
+	}
+	return &XMLPart{Root: &root, Ops: ops}
+}
+
 var mediaNames = []string{"image", "image.", "image.png", "image0.png", "image7.png", "image007.jpeg", "image-5.png", "image+3.png", "image99999999999999999999.png", "image2147483647.png",
 	"image 4.png", "image1.PNG", "Image9.png", "image3", "image12.tar.gz", "picture.png", "image१.png", "image0x10.png", "image1e3.png", "image9223372036854775807.png", "sub/image5.png"}
 
@@ -555,11 +672,18 @@ func genCase(t *rapid.T) Case {
 		c.Gen = "a"
 		nf := rapid.SampledFrom([]int{0, 0, 1, 1, 1, 1, 2, 2, 3}).Draw(t, "nfaults")
 		c.Parts = map[string]*XMLPart{nMain: genMainPart(t, nf)}
-	case k < 16: // (b) faults on the optional parts
+	case k < 16: // (b) faults on the optional parts; k == 15: well-formed relationship parts with adversarial id sets
 		c.Gen = "b"
 		c.Parts = map[string]*XMLPart{}
 		name := rapid.SampledFrom(OptionalParts).Draw(t, "target")
-		c.Parts[name] = genOptionalPart(t, name)
+		if k == 15 {
+			name = nDocRels
+		}
+		if (name == nDocRels || name == nRels) && (k == 15 || rapid.Bool().Draw(t, "adversarial-rels")) {
+			c.Parts[name] = genRelsPart(t, name == nRels)
+		} else {
+			c.Parts[name] = genOptionalPart(t, name)
+		}
 		if rapid.IntRange(0, 4).Draw(t, "second-target") == 0 {
 			n2 := rapid.SampledFrom(OptionalParts).Draw(t, "target2")
 			if n2 != name {
@@ -568,6 +692,19 @@ func genCase(t *rapid.T) Case {
 		}
 		if rapid.IntRange(0, 9).Draw(t, "with-main") < 4 {
 			c.Parts[nMain] = genMainPart(t, 0)
+		}
+	case k == 16: // (c) forged zip metadata: the directory lies about one entry
+		c.Gen = "c"
+		op := COp{Op: "forge", Name: rapid.SampledFrom(baseOrder).Draw(t, "part")}
+		if rapid.IntRange(0, 3).Draw(t, "local-header") == 0 {
+			op.Op = "localhdr"
+			op.S = rapid.SampledFrom(LocalHdrKinds).Draw(t, "localhdr-kind")
+		} else {
+			op.S = rapid.SampledFrom(append([]string{"usize-1<<62", "usize-1<<62", "usize-1<<40", "usize-maxu32+1"}, ForgeKinds...)).Draw(t, "forge-kind")
+		}
+		c.Cont = []COp{op}
+		if rapid.IntRange(0, 3).Draw(t, "stored-too") == 0 {
+			c.Cont = append(c.Cont, COp{Op: "store", Name: "*"})
 		}
 	default: // (c) container-level faults
 		c.Gen = "c"
